@@ -63,6 +63,14 @@ def concretise(style, shapes) -> str:
     return "\n".join(out)
 
 
+def twin_src(style) -> str:
+    """A module with a class Config of its own and a function whose docstring types both parameters as Config."""
+    doc = {"NUMPYDOC": '    """Summary line.\n\n    Parameters\n    ----------\n    c : Config\n        The c.\n    d : Config\n        The d.\n    """',
+           "GOOGLE": '    """Summary line.\n\n    Args:\n        c (Config): The c.\n        d (Config): The d.\n    """',
+           "REST": '    """Summary line.\n\n    :param Config c: The c.\n    :param Config d: The d.\n    """'}[style]
+    return f"class Config:\n    pass\n\n\ndef use_twin(c: Config, d) -> int:\n{doc}\n    ...\n"
+
+
 def main(v: Verdict) -> None:
     scs = generate(v, "Reconcile", "C14_MC.cfg", min_records=1000)
     if not scs:
@@ -73,7 +81,7 @@ def main(v: Verdict) -> None:
     jobs, meta = [], []
     for style in ("GOOGLE", "NUMPYDOC", "REST"):
         pkg = f"recpk{style.lower()[:4]}"
-        d = write_pkg({"__init__.py": "", f"{MOD}.py": concretise(style, shapes)}, pkg)
+        d = write_pkg({"__init__.py": "", f"{MOD}.py": concretise(style, shapes), "twina.py": twin_src(style), "twinb.py": twin_src(style), "twinz.py": twin_src(style)}, pkg)
         for pref in ("CODE", "DOCSTRING"):
             for warn in ("WARN", "IGNORE"):
                 jobs.append({"src": d, "opts": Opts(docstyle=style, tsp=pref, tsw=warn), "timeout": 600})
@@ -108,6 +116,20 @@ def main(v: Verdict) -> None:
             o = {"missing": False, "ptys": [type_term(p["type"]) for p in d.params], "rtys": [type_term(x["type"]) for x in d.results],
                  "nwarn": counts.get(idx, 0)}
         obs.append({"id": f"{sc['style']}-{sc['pref']}-{sc['warn']}#f{idx}", "kind": "fn", "sc": sc, "obs": o})
+    for (style, pref, warn), (r, stubs, counts) in sorted(by.items()):
+        api = r.api() or {}
+        pkg = f"recpk{style.lower()[:4]}"
+        params = {p["id"]: p for p in api.get("parameters", [])}
+        for mod in ("twina", "twinb", "twinz"):
+            ptypes = []
+            for pn in ("c", "d"):
+                t = (params.get(f"{pkg}/{mod}/use_twin/{pn}") or {}).get("type") or {}
+                q = t.get("qname", "@none")
+                ptypes.append(q[len(pkg) + 1:] if q.startswith(pkg + ".") else q)
+            f = next((f for rel, f in stubs.files.items() if (f.pymodule or f.package).endswith("." + mod)), None)
+            nwarn = sum(1 for w in r.warnings if w["level"] == "WARNING" and f"{pkg}/{mod}/use_twin" in w["msg"])
+            obs.append({"id": f"twin-{style}-{pref}-{warn}-{mod}", "kind": "twin", "sc": {"style": style, "pref": pref, "warn": warn},
+                        "obs": {"mod": mod, "ptypes": ptypes, "imported": [name for _, name, _ in f.imports] if f else ["@no-stub"], "nwarn": nwarn}})
     for style in ("GOOGLE", "NUMPYDOC", "REST"):
         for pref in ("CODE", "DOCSTRING"):
             a, b = by.get((style, pref, "WARN")), by.get((style, pref, "IGNORE"))
